@@ -388,3 +388,14 @@ Definition toy_m0 (lines : Z) : mstate Z cst := {| ms := cst_init lines; frame :
 Definition toy_run (nv : natives) (fuel : nat) (cp : cprogram) (lines : Z) (cs0 : cstate) : toy_result :=
   let '(r, fin, cs) := execute_all (ctoy nv) (c_funcs cp) c_cancel cio fuel cp (toy_m0 lines) cs0 in
   {| tr_res := r; tr_state := fin; tr_cs := cs |}.
+
+(* an input that never ends (every read delivers one more record): for the record-loop theorems *)
+Definition cio_endless : ioprims Z cst Z :=
+  {| io_next_line := fun s => (read_line s, EOk (Some (c_nr s + 1)));
+     io_set_record := fun s _ => s;
+     io_print_line := fun s => (add_out s [c_nr s], EOk tt);
+     io_next_file := fun s => s;
+     io_exit_status := c_exit;
+     io_close_all := set_closed |}.
+
+Definition toy_natives : natives := {| n_cancel := 0; n_cancelfail := 1; n_fail := 2; n_rec := 3 |}.
